@@ -40,7 +40,8 @@ BaseG == [tsmap |-> <<>>, css |-> <<>>, regions |-> <<>>, cues |-> <<>>]
 TruthsH == {[tsmap |-> tm, css |-> cs, regions |-> rg, cues |-> <<[SimpleCue(0, 1500) EXCEPT !.region = rr, !.set = st]>>] :
               \* 2147483647 stands for 8589934591 = 2^33 - 1, the largest MPEG-TS time stamp (TLC's integers are 32 bits
               \* wide; the harness writes and reads the real value)
-              tm \in {<<>>, <<[local |-> 0, mpegts |-> 900000]>>, <<[local |-> 3723004, mpegts |-> 123456789]>>, <<[local |-> 1000, mpegts |-> 2147483647]>>},
+              tm \in {<<>>, <<[local |-> 0, mpegts |-> 900000]>>, <<[local |-> 3723004, mpegts |-> 123456789]>>, <<[local |-> 1000, mpegts |-> 2147483647]>>,
+                      <<[local |-> 10000, mpegts |-> 0]>>},
               cs \in {<<>>, <<1>>, <<1, 2>>}, rg \in {<<>>, <<R1>>, <<R1, R2>>, <<R2>>}, rr \in {0, 1, 2}, st \in Sets}
 TruthsHOK == {t \in TruthsH : t.cues[1].region = 0 \/ \E i \in DOMAIN t.regions : t.regions[i].id = t.cues[1].region}
 
@@ -58,9 +59,10 @@ TruthsP == {[BaseG EXCEPT !.cues = <<[SimpleCue(0, 1000) EXCEPT !.id = i1, !.not
 Tc3 == [name |-> "c", cls |-> <<3>>, ann |-> 0]
 \* ... and tags of the same name that differ in their annotation only (<lang en> next to <lang fr>)
 Tl2 == [name |-> "lang", cls |-> <<>>, ann |-> 2]
+Tlc == [name |-> "lang", cls |-> <<1>>, ann |-> 1]      \* a class and an annotation on the same tag
 \* ... and a class that names a colour (the writer wraps such runs) next to runs sharing a tag with it
 StacksN == {<<>>, <<Tc1>>, <<Tc1, Tc2>>, <<Tc1, Tc2, Tc3>>, <<Ti>>, <<Ti, Tb>>, <<Ti, Tb, Ti>>, <<Tl>>, <<Tl2>>, <<Tc1, Tl2>>,
-            <<Tb>>, <<Tc2, Tb>>, <<Tb, Tc2>>}
+            <<Tb>>, <<Tc2, Tb>>, <<Tb, Tc2>>, <<Tlc>>}
 RunSeqsN == {rs \in {<<Run1(1, s1, 0), Run1(2, s2, 0)>> : s1 \in StacksN, s2 \in StacksN} : rs[1].tags # rs[2].tags}
             \cup {rs \in {<<Run1(1, s1, 0), Run1(2, s2, 0), Run1(3, s3, 0)>> : s1 \in StacksN, s2 \in StacksN, s3 \in StacksN} :
                      rs[1].tags # rs[2].tags /\ rs[2].tags # rs[3].tags}
